@@ -388,13 +388,26 @@ def drive(prop, tier, seed, only=None, jobs=None, scale=1.0):
                               "--out", out, "--variant", variant], env=worker_env(variant), cwd=ROOT, stdout=log, stderr=subprocess.STDOUT)
         return (p, ch, out, log)
 
+    started = {}
+    timed_out = []
+    chunk_deadline = int(os.environ.get("VERIF_CHUNK_DEADLINE", "900" if tier == "quick" else "14400"))
     while pending or running:
         while pending and len(running) < jobs:
-            running.append(launch(pending.pop(0)))
+            lp = launch(pending.pop(0))
+            started[id(lp[0])] = time.time()
+            running.append(lp)
         time.sleep(0.05)
         still = []
         for (p, ch, out, log) in running:
             if p.poll() is None:
+                if time.time() - started[id(p)] > chunk_deadline:
+                    # a stuck worker is load/harness noise, never a verdict: stop it and say so in the evidence
+                    p.kill()
+                    p.wait()
+                    log.close()
+                    timed_out.append(ch)
+                    print("[%s] worker for %s exceeded %ds and was stopped (inconclusive)" % (prop.pid, ch[0], chunk_deadline), flush=True)
+                    continue
                 still.append((p, ch, out, log))
                 continue
             log.close()
@@ -409,6 +422,8 @@ def drive(prop, tier, seed, only=None, jobs=None, scale=1.0):
     known_hits = {}
     notes = {}
     per_sub = {}
+    if timed_out:
+        notes["workers-stopped-after-deadline"] = len(timed_out)
     for (ch, out, rc) in results:
         name, variant, n, sd, i = ch
         ps = per_sub.setdefault(name, {"evaluations": 0, "generated": 0, "nt": set(), "workers": 0, "wall": 0.0})
